@@ -9,9 +9,9 @@ the `parse_number!` fall-back, `parse_complete` / `parse_partial` up to the `Num
 the validation of the API entry points (`api.rs`). The numeric conversion of a `Number` is *not* modelled
 here: `parseFloatModel` uses the exact arithmetic of `Spec` (`litBits`).
 
-Everything follows the Rust control flow statement by statement, including behaviour that looks wrong
-(e.g. `parse_8digits` on a contiguous component iterator of a non-contiguous `Bytes` does not count the
-8 digits it consumes).
+Everything follows the Rust control flow statement by statement, including behaviour that looks wrong.
+(Since /repo 7e8a135 `try_parse_8digits` counts the 8 digits it steps over with the `format` feature, and since
+12a2453 a contiguous component iterator's `current_count()` is the cursor: `tryParse8`, `Bytes.iterCount`.)
 -/
 namespace LexVerif.Model
 open LexVerif.Spec (POpts Fmt litBits FloatLit toHex toDigits)
